@@ -2,22 +2,22 @@
 # Confirm candidate seeded changes: for each /tmp/wt/<P>/SEED/<k>: (1) clean tree + demo: all tests pass;
 # (2) patched tree: existing tests pass, demo fails.  Confirmed ones are copied to /verif/seeded/<P>-<k>/.
 set -u
-WT=/tmp/seedcheck
-export CARGO_TARGET_DIR=/tmp/seedcheck-target
+WT=${SEEDCHECK_WT:-/tmp/seedcheck}
+export CARGO_TARGET_DIR=${WT}-target
 [ -d $WT ] || git -C /repo worktree add -q --detach $WT HEAD
 cp /repo/Cargo.lock $WT/Cargo.lock
 for d in "$@"; do
   prop=$(echo $d | sed 's|.*/\(C[0-9]*\)/SEED/.*|\1|'); k=$(basename $d); P=$prop-$((k + ${SEED_OFFSET:-0}))
   git -C $WT checkout -q -- . ; rm -f $WT/wgsl_to_wgpu/tests/demo.rs
   cp $d/demo.rs $WT/wgsl_to_wgpu/tests/demo.rs
-  (cd $WT && cargo test -p wgsl_to_wgpu --offline --no-fail-fast > /tmp/seedcheck-$P-clean.log 2>&1); c1=$?
-  clean_fail=$(grep -c "^test result: FAILED" /tmp/seedcheck-$P-clean.log)
-  if ! git -C $WT apply $d/patch.diff 2>/tmp/seedcheck-$P-apply.log; then echo "$P APPLY-FAILED"; continue; fi
-  (cd $WT && cargo test -p wgsl_to_wgpu --offline --no-fail-fast > /tmp/seedcheck-$P-patched.log 2>&1)
+  (cd $WT && cargo test -p wgsl_to_wgpu --offline --no-fail-fast > ${WT}-log-$P-clean.log 2>&1); c1=$?
+  clean_fail=$(grep -c "^test result: FAILED" ${WT}-log-$P-clean.log)
+  if ! git -C $WT apply $d/patch.diff 2>${WT}-log-$P-apply.log; then echo "$P APPLY-FAILED"; continue; fi
+  (cd $WT && cargo test -p wgsl_to_wgpu --offline --no-fail-fast > ${WT}-log-$P-patched.log 2>&1)
   # per-binary results in order: lib, create_shader_module, demo, doc
-  res=$(grep "^test result:" /tmp/seedcheck-$P-patched.log | awk '{print $3}' | tr '\n' ' ')
-  demo_failed=$(awk '/Running tests\/demo.rs/{f=1} f&&/^test result:/{print $3; exit}' /tmp/seedcheck-$P-patched.log)
-  others_failed=$(awk '/Running tests\/demo.rs/{f=1;next} /Running|Doc-tests/{f=0} !f&&/^test result: FAILED/{n++} END{print n+0}' /tmp/seedcheck-$P-patched.log)
+  res=$(grep "^test result:" ${WT}-log-$P-patched.log | awk '{print $3}' | tr '\n' ' ')
+  demo_failed=$(awk '/Running tests\/demo.rs/{f=1} f&&/^test result:/{print $3; exit}' ${WT}-log-$P-patched.log)
+  others_failed=$(awk '/Running tests\/demo.rs/{f=1;next} /Running|Doc-tests/{f=0} !f&&/^test result: FAILED/{n++} END{print n+0}' ${WT}-log-$P-patched.log)
   if [ "$clean_fail" = "0" ] && [ "$c1" = "0" ] && [ "$demo_failed" = "FAILED." ] && [ "$others_failed" = "0" ]; then
     mkdir -p /verif/seeded/$P && cp $d/patch.diff $d/demo.rs $d/meta.json /verif/seeded/$P/ && echo "$P CONFIRMED ($res)"
   else
